@@ -818,6 +818,11 @@ class World:
                 want = before
             self.bind(node, want)
             rec.count("implicit_resolutions_adopted")
+        elif rt is None:
+            # the model took the alias for bound, the real one is (still / again) unresolved: an unresolved alias breaks
+            # none of the stated invariants (it resolves lazily through its target path) -> follow the real state
+            rec.count("model_bound_but_real_alias_unresolved")
+            self.bind(node, None)
         elif rt is not real[node.target.uid]:
             if info.new_real is not None and rt is info.new_real and any(a is obj for a in info.old_backrefs):
                 # not required by the statement, not forbidden either: an alias that no longer pointed at the replaced
